@@ -23,6 +23,8 @@ import ClarabelProofs.Lemmas.InfoPresolveUser
 import ClarabelProofs.Props.C09
 import ClarabelProofs.Props.C01Full
 import ClarabelProofs.Props.C01NS
+import ClarabelProofs.Props.C01Total
+import ClarabelProofs.Props.C01NSTotal
 
 namespace Clarabel.C01
 open Clarabel.Dense Clarabel.Info Finset
